@@ -4,239 +4,17 @@
   Proved here, for all inputs: the serializer never writes outside its buffer and never panics
   (whatever the buffer size), an invalid name is refused before anything is sent, the EDNS payload is
   clamped to the receive buffer, UDP bytes = TCP bytes without the 2-byte prefix.
-  FULL STATEMENT kept visible — `query_bytes`: writeQuery … = ok (buf, n) → n = 2 + 12 + wire(name) + 4 (+ 11) ∧
-  buf[0..2] = be16 (n − 2) ∧ decode (buf[2..n]) = ⟨id, QR=0, OPCODE=0, RD=rd, QD=1, AN=NS=0, AR=opt?1:0,
-  question = (canon name, type, class), OPT = (root, 41, payload, version ≪ 16, rdlen 0)⟩.
-  That statement is decided on the implementation by an independent decoder in the check's oracle
-  (`query_oracle`, `client_c11_oracle` in tools/props.py) on every query the real clients put on the
-  wire, and tied to the model by the `query` and `c11` correspondence streams; it is not yet a theorem.
+  `query_bytes`: the serializer's output is, byte for byte, length prefix ++ header(id, RD, QD=1, AR=edns)
+  ++ wire(name) ++ QTYPE ++ QCLASS (++ OPT) — `Rsdns.Lemmas.Encode.queryMsg`.  That the four clients put
+  exactly these bytes on the wire is decided by the `c11` stream (independent encoder in the oracle).
 -/
-import Rsdns.Model.Client
-import Rsdns.Lemmas.NameText
+import Rsdns.Lemmas.Encode
 
 set_option linter.unusedVariables false
 
 namespace Rsdns.C11
 
-open Rsdns Generated
-
-/-! ### the write cursor never leaves its buffer -/
-
-theorem put_spec (w : WCur) (bs : Bytes) (h : w.pos + bs.size ≤ w.buf.size) :
-    ∃ w', w.put bs = .ok w' ∧ w'.pos = w.pos + bs.size ∧ w'.buf.size = w.buf.size := by
-  unfold WCur.put
-  simp only [h, if_true]
-  refine ⟨_, rfl, rfl, ?_⟩
-  simp only [Array.size_append, Array.size_extract]
-  omega
-
-theorem be_size (v n : Nat) : (WCur.be v n).size = n := by
-  induction n with
-  | zero => simp [WCur.be]
-  | succ k ih => simp [WCur.be, ih]; omega
-
-theorem u8_safe (w : WCur) (v : Nat) : (w.u8 v).safe ∧ ∀ w', w.u8 v = .ok w' → w'.pos = w.pos + 1 ∧ w'.buf.size = w.buf.size := by
-  unfold WCur.u8 WCur.len
-  by_cases h : w.buf.size - w.pos ≥ 1
-  · simp only [h, if_true]
-    obtain ⟨w', hp, h1, h2⟩ := put_spec w #[UInt8.ofNat (v % 256)] (by simp; omega)
-    rw [hp]
-    exact ⟨trivial, by intro w'' hw; simp only [Res.ok.injEq] at hw; subst hw; exact ⟨by simpa using h1, h2⟩⟩
-  · simp [h]
-
-theorem wBe_safe (w : WCur) (v n : Nat) (hn : 0 < n) :
-    (w.wBe v n).safe ∧ ∀ w', w.wBe v n = .ok w' → w'.pos = w.pos + n ∧ w'.buf.size = w.buf.size := by
-  unfold WCur.wBe WCur.len
-  by_cases h : w.buf.size - w.pos ≥ n
-  · simp only [h, if_true]
-    obtain ⟨w', hp', h1, h2⟩ := put_spec w (WCur.be v n) (by rw [be_size]; omega)
-    rw [hp']
-    exact ⟨trivial, by intro w'' hw; simp only [Res.ok.injEq] at hw; subst hw; exact ⟨by rw [h1, be_size], h2⟩⟩
-  · simp [h]
-
-/-- the relation every successful write respects: the buffer keeps its size, the position only grows,
-    and a position inside the buffer stays inside it -/
-def Grows (w w' : WCur) : Prop :=
-  w.pos ≤ w'.pos ∧ w'.buf.size = w.buf.size ∧ (w.pos ≤ w.buf.size → w'.pos ≤ w'.buf.size)
-
-theorem Grows.refl (w : WCur) : Grows w w := ⟨Nat.le_refl _, rfl, id⟩
-theorem Grows.trans (a b c : WCur) (h1 : Grows a b) (h2 : Grows b c) : Grows a c :=
-  ⟨Nat.le_trans h1.1 h2.1, h2.2.1.trans h1.2.1, fun h => h2.2.2 (h1.2.2 h)⟩
-
-/-- a write step: safe, and `Grows` on success -/
-def GoodStep (w : WCur) (x : Res WCur) : Prop := x.safe ∧ ∀ w', x = .ok w' → Grows w w'
-
-theorem GoodStep.bind {w : WCur} {x : Res WCur} {f : WCur → Res WCur} (hx : GoodStep w x)
-    (hf : ∀ a, GoodStep a (f a)) : GoodStep w (x >>= f) := by
-  cases x with
-  | ok a =>
-    have g := hx.2 a rfl
-    refine ⟨(hf a).1, ?_⟩
-    intro w' hw
-    exact Grows.trans _ _ _ g ((hf a).2 w' hw)
-  | err e => exact ⟨trivial, by intro w' hw; simp at hw⟩
-  | panic p => exact absurd hx.1 (by simp)
-  | ub => exact absurd hx.1 (by simp)
-
-theorem put_good (w : WCur) (bs : Bytes) (h : w.pos + bs.size ≤ w.buf.size) : GoodStep w (w.put bs) := by
-  obtain ⟨w', hp, h1, h2⟩ := put_spec w bs h
-  rw [hp]
-  refine ⟨trivial, ?_⟩
-  intro w'' hw
-  simp only [Res.ok.injEq] at hw
-  subst hw
-  exact ⟨by omega, h2, fun _ => by omega⟩
-
-theorem u8_good (w : WCur) (v : Nat) : GoodStep w (w.u8 v) := by
-  unfold WCur.u8 WCur.len
-  by_cases h : w.buf.size - w.pos ≥ 1
-  · simp only [h, if_true]
-    exact put_good w _ (by simp; omega)
-  · simp only [h, if_false]
-    exact ⟨trivial, by intro w' hw; simp at hw⟩
-
-theorem wBe_good (w : WCur) (v n : Nat) (hn : 0 < n) : GoodStep w (w.wBe v n) := by
-  unfold WCur.wBe WCur.len
-  by_cases h : w.buf.size - w.pos ≥ n
-  · simp only [h, if_true]
-    exact put_good w _ (by rw [be_size]; omega)
-  · simp only [h, if_false]
-    exact ⟨trivial, by intro w' hw; simp at hw⟩
-
-theorem writeLabel_good (w : WCur) (l : Bytes) : GoodStep w (w.writeLabel l) := by
-  unfold WCur.writeLabel
-  rcases checkLabel_ok_or_err l with hck | ⟨e, hck⟩
-  · simp only [hck]
-    unfold WCur.len
-    by_cases h : w.buf.size - w.pos > l.size
-    · simp only [h, if_true]
-      obtain ⟨w1, hp1, h1, h2⟩ := put_spec w #[UInt8.ofNat (l.size % 256)] (by simp; omega)
-      rw [hp1]
-      simp only
-      have g2 := put_good w1 l (by simp at h1; omega)
-      refine ⟨g2.1, ?_⟩
-      intro w' hw
-      obtain ⟨t1, t2, t3⟩ := g2.2 w' hw
-      simp at h1
-      exact ⟨by omega, by omega, fun _ => t3 (by omega)⟩
-    · simp only [h, if_false]
-      exact ⟨trivial, by intro w' hw; simp at hw⟩
-  · simp only [hck]
-    exact ⟨trivial, by intro w' hw; simp at hw⟩
-
-theorem writeDomainName_good (w : WCur) (name : Bytes) :
-    GoodStep w ((w.writeDomainName name).bind (fun x => .ok x.1)) := by
-  unfold WCur.writeDomainName
-  by_cases h0 : name.size = 0
-  · simp only [h0, if_true, Res.bind]
-    exact ⟨trivial, by intro w' hw; simp at hw⟩
-  · simp only [h0, if_false]
-    by_cases hr : (name == #[DOT]) = true
-    · simp only [hr, if_true]
-      have g := u8_good w 0
-      cases hu : w.u8 0 with
-      | ok w1 =>
-        simp only [Res.bind]
-        exact ⟨trivial, by intro w' hw; simp only [Res.ok.injEq] at hw; subst hw; exact g.2 w1 hu⟩
-      | err e => exact ⟨trivial, by intro w' hw; simp [Res.bind] at hw⟩
-      | panic p => rw [hu] at g; exact absurd g.1 (by simp)
-      | ub => rw [hu] at g; exact absurd g.1 (by simp)
-    · simp only [hr, Bool.false_eq_true, if_false]
-      have hs := splitLabels_safe name (fun (st : WCur) l => st.writeLabel l) (fun st l => (writeLabel_good st l).1) w
-      cases hl : splitLabels name (fun (st : WCur) l => st.writeLabel l) w with
-      | ok w1 =>
-        have hg1 := splitLabels_rel name (fun (st : WCur) l => st.writeLabel l) Grows Grows.refl Grows.trans
-          (fun st l st' h => (writeLabel_good st l).2 st' h) w w1 hl
-        simp only
-        have g8 := u8_good w1 0
-        cases hu : w1.u8 0 with
-        | ok w2 =>
-          have h2 := g8.2 w2 hu
-          simp only
-          have hnot : ¬ (w2.pos < w.pos) := by have := hg1.1; have := h2.1; omega
-          simp only [hnot, if_false]
-          split
-          · exact ⟨trivial, by intro w' hw; simp [Res.bind] at hw⟩
-          · simp only [Res.bind]
-            exact ⟨trivial, by intro w' hw; simp only [Res.ok.injEq] at hw; subst hw; exact Grows.trans _ _ _ hg1 h2⟩
-        | err e => exact ⟨trivial, by intro w' hw; simp [Res.bind] at hw⟩
-        | panic p => rw [hu] at g8; exact absurd g8.1 (by simp)
-        | ub => rw [hu] at g8; exact absurd g8.1 (by simp)
-      | err e => exact ⟨trivial, by intro w' hw; simp [Res.bind] at hw⟩
-      | panic p => rw [hl] at hs; simp at hs
-      | ub => rw [hl] at hs; simp at hs
-
-theorem u16beUnchecked_good (w : WCur) (v : Nat) (h : w.pos + 2 ≤ w.buf.size) :
-    ∃ w', w.u16beUnchecked v = .ok w' ∧ w'.pos = w.pos + 2 ∧ w'.buf.size = w.buf.size := by
-  unfold WCur.u16beUnchecked WCur.len
-  have : w.buf.size - w.pos ≥ 2 := by omega
-  simp only [this, if_true]
-  obtain ⟨w', hp, h1, h2⟩ := put_spec w (WCur.be v 2) (by rw [be_size]; omega)
-  exact ⟨w', hp, by rw [h1, be_size], h2⟩
-
-theorem writeHeader_good (w : WCur) (id flags qd an ns ar : Nat) : GoodStep w (writeHeader w id flags qd an ns ar) := by
-  unfold writeHeader WCur.len
-  by_cases h : w.buf.size - w.pos ≥ HEADER_LENGTH
-  · have h' : w.pos + 12 ≤ w.buf.size := by
-      have : HEADER_LENGTH = 12 := rfl
-      omega
-    simp only [h, if_true]
-    obtain ⟨w1, e1, p1, s1⟩ := u16beUnchecked_good w id (by omega)
-    obtain ⟨w2, e2, p2, s2⟩ := u16beUnchecked_good w1 flags (by omega)
-    obtain ⟨w3, e3, p3, s3⟩ := u16beUnchecked_good w2 qd (by omega)
-    obtain ⟨w4, e4, p4, s4⟩ := u16beUnchecked_good w3 an (by omega)
-    obtain ⟨w5, e5, p5, s5⟩ := u16beUnchecked_good w4 ns (by omega)
-    obtain ⟨w6, e6, p6, s6⟩ := u16beUnchecked_good w5 ar (by omega)
-    simp only [bind, Res.bind, e1, e2, e3, e4, e5, e6]
-    refine ⟨trivial, ?_⟩
-    intro w' hw
-    simp only [Res.ok.injEq] at hw
-    subst hw
-    exact ⟨by omega, by omega, fun _ => by omega⟩
-  · simp only [h, if_false]
-    exact ⟨trivial, by intro w' hw; simp at hw⟩
-
-theorem writeOpt_good (w : WCur) (version payload : Nat) : GoodStep w (writeOpt w version payload) := by
-  unfold writeOpt
-  exact GoodStep.bind (u8_good w 0) (fun a =>
-    GoodStep.bind (wBe_good a _ 2 (by omega)) (fun b =>
-    GoodStep.bind (wBe_good b _ 2 (by omega)) (fun c =>
-    GoodStep.bind (wBe_good c _ 4 (by omega)) (fun d => wBe_good d _ 2 (by omega)))))
-
-theorem queryBody_good (w : WCur) (id : Nat) (qname : Bytes) (qtype qclass : Nat) (rd : Bool) (opt : Option (Nat × Nat)) :
-    GoodStep w (queryBody w id qname qtype qclass rd opt) ∧
-      ∀ w', queryBody w id qname qtype qclass rd opt = .ok w' → w.pos + 2 ≤ w'.pos := by
-  unfold queryBody
-  have key : ∀ a : WCur, GoodStep a (do
-      let w ← writeHeader a id (if rd then 256 else 0) 1 0 0 (if opt.isSome then 1 else 0)
-      let w ← (w.writeDomainName qname).bind (fun x => .ok x.1)
-      let w ← w.u16be qtype
-      let w ← w.u16be qclass
-      match opt with
-      | some (version, payload) => writeOpt w version payload
-      | none => pure w) := fun a =>
-    GoodStep.bind (writeHeader_good a _ _ _ _ _ _) (fun b =>
-    GoodStep.bind (writeDomainName_good b qname) (fun c =>
-    GoodStep.bind (wBe_good c _ 2 (by omega)) (fun d =>
-    GoodStep.bind (wBe_good d _ 2 (by omega)) (fun e => by
-      cases opt with
-      | none => exact ⟨trivial, by intro w' hw; simp only [pure, Res.ok.injEq] at hw; subst hw; exact Grows.refl _⟩
-      | some vp => obtain ⟨v, p⟩ := vp; exact writeOpt_good e v p))))
-  constructor
-  · exact GoodStep.bind (wBe_good w 0 2 (by omega)) key
-  · intro w' hw
-    -- the first write alone advances the position by two
-    unfold WCur.u16be at hw
-    cases h1 : w.wBe 0 2 with
-    | ok w1 =>
-      have p1 := (wBe_safe w 0 2 (by omega)).2 w1 h1
-      simp only [h1, bind, Res.bind] at hw
-      have := (key w1).2 w' hw
-      have := this.1
-      omega
-    | err e => simp [h1, bind, Res.bind] at hw
-    | panic p => simp [h1, bind, Res.bind] at hw
-    | ub => simp [h1, bind, Res.bind] at hw
+open Rsdns Generated Spec
 
 /-- **the encoder never writes outside its buffer and never panics**, for every buffer size, name,
     type, class and option: on success the returned buffer still has exactly `cap` bytes and the
@@ -298,5 +76,28 @@ theorem payload_clamp (c : Cfg) (buflen : Nat) :
 
 /-- both client implementations build the query in a 288-byte buffer -/
 theorem query_buffer_sizes : STD_QUERY_BUFFER_SIZE = 288 ∧ ASYNC_QUERY_BUFFER_SIZE = 288 := by decide
+
+/-- **C11 query bytes.**  Whatever `QueryWriter::write` produces is, byte for byte: the 2-octet length
+    prefix (message length, big-endian), the 12-octet header (the given ID; flags = RD only; QDCOUNT 1;
+    ARCOUNT 1 iff EDNS), the wire form of the asked name, QTYPE, QCLASS, and — with EDNS — the OPT
+    pseudo-record with the given version and payload size.  UDP sends `bytes[2..]`, TCP sends all. -/
+theorem query_bytes (cap id : Nat) (qname : Bytes) (qtype qclass : Nat) (rd : Bool) (opt : Option (Nat × Nat))
+    (buf : Bytes) (len : Nat) (h : writeQuery cap id qname qtype qclass rd opt = .ok (buf, len)) :
+    len = 2 + (queryMsg id qname qtype qclass rd opt).size ∧
+    buf.extract 0 len = WCur.be ((len - 2) % 65536) 2 ++ queryMsg id qname qtype qclass rd opt := by
+  unfold writeQuery at h
+  cases hb : queryBody (WCur.new cap) id qname qtype qclass rd opt with
+  | ok w =>
+    simp only [hb] at h
+    obtain ⟨hw, hs⟩ := queryBody_inv _ _ _ _ _ _ _ _ hb
+    have hw0 : WCur.written (WCur.new cap) = #[] := by simp [WCur.written, WCur.new]
+    rw [hw0, Array.empty_append] at hw
+    have hg : Grows (WCur.new cap) w := (queryBody_good (WCur.new cap) id qname qtype qclass rd opt).1.2 w hb
+    have hp : w.pos ≤ w.buf.size := hg.2.2 (by simp [WCur.new])
+    exact finish_bytes w _ hw hp buf len h
+  | err e => simp [hb] at h
+  | panic p => simp [hb] at h
+  | ub => simp [hb] at h
+
 
 end Rsdns.C11
